@@ -116,6 +116,34 @@ impl C06 {
                 _ => orpha_disease_enrichment(bg.clone(), sm.clone()).iter().map(|e| (e.id().as_u32(), e.count(), e.pvalue(), e.enrichment())).collect(),
             });
             let kn = KIND_NAMES[kind];
+            // the same call with the other documented argument forms (&Ontology as background when it is
+            // the whole ontology, &HpoSet as sample): must give the same records
+            {
+                let set = hpo::HpoSet::new(&s.ont, hpo::term::HpoGroup::from(sample.to_vec()));
+                let whole = background.len() == s.ont.len();
+                let alt: Result<Vec<(u32, u64, f64, f64)>, _> = guard(|| match (kind, whole) {
+                    (0, true) => gene_enrichment(&s.ont, &set).iter().map(|e| (e.id().as_u32(), e.count(), e.pvalue(), e.enrichment())).collect(),
+                    (1, true) => omim_disease_enrichment(&s.ont, &set).iter().map(|e| (e.id().as_u32(), e.count(), e.pvalue(), e.enrichment())).collect(),
+                    (2, true) => orpha_disease_enrichment(&s.ont, &set).iter().map(|e| (e.id().as_u32(), e.count(), e.pvalue(), e.enrichment())).collect(),
+                    (0, false) => gene_enrichment(bg.clone(), &set).iter().map(|e| (e.id().as_u32(), e.count(), e.pvalue(), e.enrichment())).collect(),
+                    (1, false) => omim_disease_enrichment(bg.clone(), &set).iter().map(|e| (e.id().as_u32(), e.count(), e.pvalue(), e.enrichment())).collect(),
+                    _ => orpha_disease_enrichment(bg.clone(), &set).iter().map(|e| (e.id().as_u32(), e.count(), e.pvalue(), e.enrichment())).collect(),
+                });
+                bump(&mut out.events, "enrichment(&Ontology|&HpoSet)");
+                if let (Ok(a), Ok(b)) = (&alt, &res) {
+                    let mut a = a.clone();
+                    let mut b = b.clone();
+                    a.sort_by(|x, y| x.0.cmp(&y.0));
+                    b.sort_by(|x, y| x.0.cmp(&y.0));
+                    let same = a.len() == b.len() && a.iter().zip(b.iter()).all(|(x, y)| x.0 == y.0 && x.1 == y.1 && x.2.to_bits() == y.2.to_bits() && x.3.to_bits() == y.3.to_bits());
+                    out.check(same, "C06", &format!("argument_form_changes_result/{kn}"), || format!("enrichment with (&Ontology|Vec, &HpoSet) differs from (Vec, Vec) for N={nn} n={n}"));
+                    if whole {
+                        out.bucket("call_form/ontology_and_set");
+                    }
+                } else if let Err(p) = &alt {
+                    out.violate("C06", &format!("panic:enrichment_alt_form/{kn}"), format!("N={nn} n={n}: {} at {}", p.message, p.location));
+                }
+            }
             let res = match res {
                 Ok(r) => r,
                 Err(p) => {
@@ -216,7 +244,7 @@ impl Monitor for C06 {
         v
     }
     fn mandatory_buckets(&self, _tier: Tier) -> Vec<String> {
-        ["tuples", "ontology_with_obsolete_terms", "population_above_factorial_table", "population_within_factorial_table", "monotonicity_pairs", "background/whole", "background/subcollection", "lattice_points"]
+        ["tuples", "ontology_with_obsolete_terms", "population_above_factorial_table", "population_within_factorial_table", "monotonicity_pairs", "background/whole", "background/subcollection", "call_form/ontology_and_set", "lattice_points"]
             .iter()
             .map(|s| (*s).to_string())
             .collect()
